@@ -14,7 +14,8 @@ RULE = ('cases = operation sequences (<=30 ops) over one SimulatedClock whose re
         'clock + interpreter + SynchronizedClock together; the copies replace the originals). An exact model (Fractions) predicts every read: '
         'never decreasing, frozen while stopped, speed x elapsed while started, rejected '
         'assignment raises ValueError and changes nothing, accepted assignment takes effect '
-        'exactly; SynchronizedClock(i).time == i.time == clock value at the last execute_once. '
+        'exactly; SynchronizedClock(i).time == i.time == clock value at the last execute_once, also '
+        'for the clocks bind_property_statechart creates (regular and deprecated call). '
         'Non-trivial = sequence with a speed change or an assignment while the clock is running '
         'and real time passing afterwards; distinct = sha1(op list).')
 ASSUMPTIONS = ['all numbers are dyadic rationals between 2**-18 and 2**31 (at most 50 significant '
@@ -68,6 +69,21 @@ def oracle(case):
         sc.add_state(BasicState('a'), None)
         interp = Interpreter(sc, clock=clock)
         sync = SynchronizedClock(interp)
+        # clocks created by bind_property_statechart (regular call and the deprecated call that
+        # receives an Interpreter): they follow `interp` too.  Not combined with copies.
+        followers = []
+        if not any(o[0] == 'copy' for o in case['ops']):
+            psc = Statechart('p')
+            psc.add_state(BasicState('pa'), None)
+            made = []
+            interp.bind_property_statechart(
+                psc, interpreter_klass=lambda sc_, clock: made.append(
+                    Interpreter(sc_, clock=clock)) or made[-1])
+            dep = Interpreter(psc)
+            interp.bind_property_statechart(dep)
+            followers = [('bound property statechart', made[0]),
+                         ('property interpreter bound the deprecated way', dep)]
+            labels['sequences with bound property statecharts'] = 1
         last_read = Fraction(0)
         last_exec = Fraction(interp.time)
         changed_while_running = False
@@ -179,6 +195,13 @@ def oracle(case):
             if Fraction(sync.time) != last_exec or sync.time != interp.time:
                 bad('synchronized-clock-differs-from-last-step-time', i, sync=sync.time,
                     interpreter_time=interp.time, last_step=float(last_exec))
+                break
+            for who, pi in followers:
+                if Fraction(pi.clock.time) != last_exec:
+                    bad('synchronized-clock-differs-from-last-step-time', i, which=who,
+                        sync=pi.clock.time, last_step=float(last_exec))
+                    break
+            if viol:
                 break
     finally:
         cmod.time = real_time
